@@ -25,6 +25,9 @@ type c13Case struct {
 	Cfg    cfggen.Config `json:"cfg"`
 	Format string        `json:"format"`
 	Probes []c13Probe    `json:"probes"`
+	// Cfg2, if set, is loaded into the running server after the probes; the same addresses are then
+	// probed again and judged by Cfg2 (what an address was bound to before must not stick)
+	Cfg2 *cfggen.Config `json:"cfg2,omitempty"`
 }
 
 var c13Prefixes = []string{
@@ -40,6 +43,28 @@ var c13Passwords = []string{"pw-alpha", "pw-bravo", "pw-charlie", "pw-delta"}
 func genC13(t *rapid.T) c13Case {
 	var c c13Case
 	c.Format = rapid.SampledFrom([]string{"yaml", "yaml", "json"}).Draw(t, "format")
+	c.Cfg = genC13Config(t)
+	if rapid.IntRange(0, 2).Draw(t, "reload") == 0 {
+		c2 := genC13Config(t)
+		c.Cfg2 = &c2
+	}
+	// probes: edges of configured prefixes, in both byte forms for IPv4
+	all := append([]string{}, c.Cfg.PrefixDeny...)
+	all = append(all, c.Cfg.PrefixAllow...)
+	for _, s := range c.Cfg.Secrets {
+		all = append(all, s.Prefixes...)
+	}
+	if c.Cfg2 != nil {
+		all = append(append(all, c.Cfg2.PrefixDeny...), c.Cfg2.PrefixAllow...)
+		for _, s := range c.Cfg2.Secrets {
+			all = append(all, s.Prefixes...)
+		}
+	}
+	return genC13Probes(t, c, all)
+}
+
+func genC13Config(t *rapid.T) cfggen.Config {
+	var c struct{ Cfg cfggen.Config }
 	ns := rapid.IntRange(1, 5).Draw(t, "nscopes")
 	for i := 0; i < ns; i++ {
 		np := rapid.IntRange(1, 3).Draw(t, "nprefixes")
@@ -98,12 +123,10 @@ func genC13(t *rapid.T) c13Case {
 	}
 	c.Cfg.PrefixDeny = list("deny")
 	c.Cfg.PrefixAllow = list("allow")
-	// probes: edges of configured prefixes, in both byte forms for IPv4
-	all := append([]string{}, c.Cfg.PrefixDeny...)
-	all = append(all, c.Cfg.PrefixAllow...)
-	for _, s := range c.Cfg.Secrets {
-		all = append(all, s.Prefixes...)
-	}
+	return c.Cfg
+}
+
+func genC13Probes(t *rapid.T, c c13Case, all []string) c13Case {
 	np := rapid.IntRange(1, 6).Draw(t, "nprobes")
 	for i := 0; i < np; i++ {
 		var a cfggen.Addr
@@ -149,7 +172,36 @@ func runC13(t failer, c c13Case) {
 		}
 	}()
 	session := uint32(100)
+	cfgs := []cfggen.Config{c.Cfg}
+	if c.Cfg2 != nil {
+		c.Cfg2.Restore()
+		cfgs = append(cfgs, *c.Cfg2)
+	}
+	for phase, cfg := range cfgs {
+		if phase == 1 {
+			doc := cfg.YAML()
+			if c.Format == "json" {
+				doc = cfg.JSON()
+			}
+			if err := env.stack.Reload(doc); err != nil {
+				ev.Class("reload-refused")
+				return
+			}
+			ev.Class("same-addresses-probed-after-reload")
+		}
+		runC13Probes(t, c, cfg, env, &session, phase, fail)
+	}
+}
+
+func runC13Probes(t failer, cc c13Case, cfg cfggen.Config, env *refEnv, sessionp *uint32, phase int, fail func(sig, format string, args ...interface{})) {
+	c := struct {
+		Cfg    cfggen.Config
+		Probes []c13Probe
+	}{cfg, cc.Probes}
+	session := *sessionp
+	defer func() { *sessionp = session }()
 	for pi, p := range c.Probes {
+		pi := pi + 100*phase
 		a := cfggen.Addr(p.Addr)
 		adm := c.Cfg.Admit(a)
 		remote := &net.TCPAddr{IP: a.IP(), Port: 5000 + pi}
